@@ -42,6 +42,8 @@ func runC09(c *Ctx) {
 	c.Rule("C09.R7", "a client stream is removed from its connection's stream table (HTTP/1: its single slot) before its listeners are notified", 3)
 	defer c09UnregisterBeforeNotify(c)
 	defer c09SlotClearedBeforeReceive(c)
+	c.Rule("C09.R9", "the client stream handed out for a new try is new, re-initialised as a whole, or a slot tested unused", 3)
+	defer freshStreamPerTry(c, "C09.R9")
 	c.Rule("C09.R8", "a client stream is reset only with a reason for which the pool closes the connection, or where the connection is known to be closed", 6)
 	defer c09ResetCloses(c, "C09.R8")
 	defer c09CloseHandlerUnconditional(c)
